@@ -122,6 +122,18 @@ func (bt *batchTransport) RoundTrip(req *http.Request) (*http.Response, error) {
 			return nil, context.Canceled
 		case "status500":
 			return jsonResp(500, []byte(`{"errors":[{"message":"boom"}]}`)), nil
+		case "status503-list":
+			// a failed call whose body looks like a complete answer (a proxy serving a stale body with its error status)
+			if single {
+				b, _ := json.Marshal(map[string]interface{}{"data": map[string]interface{}{"echo": tokens[0]}})
+				return jsonResp(503, b), nil
+			}
+			out := make([]map[string]interface{}, len(tokens))
+			for i, tk := range tokens {
+				out[i] = map[string]interface{}{"data": map[string]interface{}{"echo": tk}}
+			}
+			b, _ := json.Marshal(out)
+			return jsonResp(503, b), nil
 		case "notjson":
 			return jsonResp(200, []byte(`<html>`)), nil
 		case "errors", "errors-null-entry":
@@ -365,7 +377,7 @@ func c11Labels(c *BatchCase) []string {
 
 func TestC11(t *testing.T) {
 	rec := ev.Get("C11")
-	rec.Rule = "N sub-requests (0..60; 0..200 thorough) x max batch size m (1..16; 1..40 thorough) x completion order of the concurrent HTTP calls (a fake RoundTripper parks every call and releases them by drawn priorities) x optional failing call (transport error, 500, non-JSON, GraphQL errors, null error entry, context.Canceled) x optional upload-carrying requests; x optionally the first 1..2 ready chunk results held back until a later one is ready (verif hook point in AsyncMapReduce); plus the exhaustive grid N 0..40 x m 1..12 x {FIFO, LIFO, first-result-held} (TestC11Grid). non-trivial = N > m (chunked); distinct by hash(case)"
+	rec.Rule = "N sub-requests (0..60; 0..200 thorough) x max batch size m (1..16; 1..40 thorough) x completion order of the concurrent HTTP calls (a fake RoundTripper parks every call and releases them by drawn priorities) x optional failing call (transport error, 500, non-JSON, GraphQL errors, null error entry, context.Canceled, 503 with a complete-looking list) x optional upload-carrying requests; x optionally the first 1..2 ready chunk results held back until a later one is ready (verif hook point in AsyncMapReduce); plus the exhaustive grid N 0..40 x m 1..12 x {FIFO, LIFO, first-result-held} (TestC11Grid). non-trivial = N > m (chunked); distinct by hash(case)"
 	maxN, maxM := 60, 16
 	if ev.Thorough() {
 		maxN, maxM = 200, 40
@@ -382,7 +394,7 @@ func TestC11(t *testing.T) {
 		c.Priority = rapid.Permutation(seq(c.N)).Draw(t, "prio")
 		if c.N > 0 && rapid.IntRange(0, 3).Draw(t, "fail") == 0 {
 			c.FailTok = rapid.IntRange(0, c.N-1).Draw(t, "failtok")
-			c.FailKind = rapid.SampledFrom([]string{"transport", "status500", "notjson", "errors", "errors-null-entry", "ctx-cancelled"}).Draw(t, "failkind")
+			c.FailKind = rapid.SampledFrom([]string{"transport", "status500", "notjson", "errors", "errors-null-entry", "ctx-cancelled", "status503-list"}).Draw(t, "failkind")
 		}
 		if c.N > 0 && rapid.IntRange(0, 4).Draw(t, "files") == 0 {
 			nf := rapid.IntRange(1, minInt(3, c.N)).Draw(t, "nfiles")
